@@ -14,6 +14,7 @@ from __future__ import annotations
 import gzip
 import hashlib
 import json
+import logging
 import lzma
 import os
 import pathlib
@@ -22,6 +23,7 @@ import shutil
 import sqlite3
 import sys
 import tempfile
+import threading
 
 REPO = os.environ.get('VERIF_REPO', '/repo')
 if sys.path[0] != REPO:
@@ -98,6 +100,16 @@ class World:
         self.reads = 0
         self.page_size = random.Random('%s:page' % seed).choice([0, 0, 512, 1024])
         self.recording = False
+        # the documented web-application setting: one pooled connection shared by threads
+        self.multithreading = random.Random('%s:mt' % seed).random() < 0.3
+        # how callers spell paths: absolute str, pathlib.Path, relative to the working
+        # directory, relative to the home directory ('~/...')
+        self.rng_spell = random.Random('%s:spell' % seed)
+        self.path_spelling = self.rng_spell.random() < float(os.environ.get('VERIF_P_SPELL', '0.4'))
+        self.spelled = 0
+        # ambient configuration of the host application
+        self.dot_dirs = self.rng_spell.random() < 0.3      # input files below a dot-directory
+        self.debug_logging = self.rng_spell.random() < 0.25
         self.node('primary')
         self.use('primary')
         self.install()
@@ -150,13 +162,20 @@ class World:
             shutil.copyfile(snap, dst)
 
     def workdir(self, name):
-        d = os.path.join(self.root, 'work', name)
+        d = os.path.join(self.root, 'work', '.cache' if self.dot_dirs else 'data', name)
         os.makedirs(d, exist_ok=True)
         return d
 
     # -- seams ------------------------------------------------------------------------------
     def install(self):
         World.current = self
+        self._saved_env = (os.environ.get('HOME'), os.getcwd())
+        os.environ['HOME'] = self.root
+        os.chdir(self.root)
+        wn.config.allow_multithreading = self.multithreading
+        self._saved_loglevel = logging.getLogger('wn').level
+        if self.debug_logging:
+            logging.getLogger('wn').setLevel(logging.DEBUG)
         wn._db.sqlite3 = _Sqlite3Shim()
         wn._add.BATCH_SIZE = _DEFAULT_BATCH
         wn.lmf.open = _sim_open
@@ -166,6 +185,14 @@ class World:
 
     def close(self):
         self.restart()
+        home, cwd = self._saved_env
+        if home is None:
+            os.environ.pop('HOME', None)
+        else:
+            os.environ['HOME'] = home
+        os.chdir(cwd)
+        logging.getLogger('wn').setLevel(self._saved_loglevel)
+        wn.config.allow_multithreading = False
         wn._db.sqlite3 = sqlite3
         wn._add.BATCH_SIZE = _DEFAULT_BATCH
         if 'open' in vars(wn.lmf):
@@ -175,6 +202,31 @@ class World:
         pathlib.Path.iterdir = _real_iterdir
         World.current = None
         shutil.rmtree(self.root, ignore_errors=True)
+
+    def spell(self, path):
+        """Another spelling of a path below the world's root (same file)."""
+        if not self.path_spelling or not isinstance(path, str) \
+                or not path.startswith(self.root + os.sep):
+            return path
+        rel = os.path.relpath(path, self.root)
+        mode = self.rng_spell.choice(['abs', 'path', 'rel', 'rel-dot', 'rel-path', 'tilde',
+                                      'tilde-path', 'rel-parent'])
+        self.spelled += 1
+        if mode == 'abs':
+            return path
+        if mode == 'path':
+            return pathlib.Path(path)
+        if mode == 'rel':
+            return rel
+        if mode == 'rel-dot':
+            return os.path.join('.', rel)
+        if mode == 'rel-path':
+            return pathlib.Path(rel)
+        if mode == 'rel-parent':
+            return os.path.join('..', os.path.basename(self.root), rel)
+        if mode == 'tilde':
+            return os.path.join('~', rel)
+        return pathlib.Path('~') / rel
 
     def set_batch(self, n):
         wn._add.BATCH_SIZE = n
@@ -226,15 +278,31 @@ class World:
         if self._in_read:
             return
         self._in_read = True
+
+        def client():
+            try:
+                n = 0
+                for lx in wn.lexicons():
+                    n += len(lx.extensions()) + (lx.extends() is not None) + len(lx.requires())
+                for ss in wn.synsets()[:2]:
+                    ss.lexicon()
+                self.reads += 1
+            except wn.Error:
+                pass
+            except BaseException as e:       # re-raised in the mutator's thread below
+                box.append(e)
+        box = []
         try:
-            n = 0
-            for lx in wn.lexicons():
-                n += len(lx.extensions()) + (lx.extends() is not None) + len(lx.requires())
-            for ss in wn.synsets()[:2]:
-                ss.lexicon()
-            self.reads += 1
-        except wn.Error:
-            pass
+            if self.multithreading:
+                # a real second thread; the mutator waits for it, so the interleaving is
+                # still decided here and nowhere else
+                t = threading.Thread(target=client, name='sim-client')
+                t.start()
+                t.join()
+            else:
+                client()
+            if box:
+                raise box[0]
         finally:
             self._in_read = False
 
